@@ -87,17 +87,19 @@ func smallIntOptimised() bool {
 }
 
 type env struct {
-	c       *driver.Ctx
-	th      *starlark.Thread
-	digest  uint64
-	judged  int64
-	pyOn    bool // this case is sampled by the python oracle
-	pyq     []pyReq
-	py      *driver.Py
-	pyDead  bool
-	mathMod starlark.StringDict
-	predecl starlark.StringDict
-	opts    *syntax.FileOptions
+	c           *driver.Ctx
+	th          *starlark.Thread
+	digest      uint64
+	judged      int64
+	keyOverride string
+	relaxFail   bool // near machine-integer limits a built-in may fail instead of answering ("exact or fail")
+	pyOn        bool // this case is sampled by the python oracle
+	pyq         []pyReq
+	py          *driver.Py
+	pyDead      bool
+	mathMod     starlark.StringDict
+	predecl     starlark.StringDict
+	opts        *syntax.FileOptions
 }
 
 func run(c *driver.Ctx) {
@@ -138,12 +140,13 @@ func run(c *driver.Ctx) {
 			continue
 		}
 		r := c.Rand()
-		e.pyOn = c.Case()%12 == 0
+		e.pyOn = (c.Case()/int64(len(families)))%10 == 3 // ~10% of the cases of every family
 		e.pyq = e.pyq[:0]
 		fam := int(c.Case() % int64(len(families)))
 		f := families[fam]
 		c.Note("family %s case %d", f.name, c.Case())
 		before := e.judged
+		e.keyOverride, e.relaxFail = "", false
 		if p := sl.Safe(func() { f.run(e, r) }); p != nil {
 			// A panic that escaped the per-operation guards: either the code under test
 			// panicked outside a guarded call or the harness is wrong. Report it, do not crash.
@@ -190,6 +193,10 @@ func call(f func() (starlark.Value, error)) (v starlark.Value, err error, p *sl.
 }
 
 func (e *env) violation(key string, what string, detail map[string]any) {
+	if e.keyOverride != "" {
+		// every symptom (wrong value, spurious failure, panic) of one root cause shares one key
+		key = e.keyOverride
+	}
 	e.c.Violation(key, what, detail)
 }
 
@@ -265,7 +272,7 @@ func (e *env) wantInt(site, class string, o outcome, want *big.Int, fm failMode,
 	}
 	if o.err != nil {
 		e.mix(0xE)
-		if fm == mustSucceed {
+		if fm == mustSucceed && !e.relaxFail {
 			e.violation("C10 fails "+site+" "+class, fmt.Sprintf("%s failed (%s) but the exact result is %s", expr(), errStr(o.err), want),
 				map[string]any{"expr": expr(), "error": errStr(o.err), "want": want.String(), "variant": e.c.Variant})
 		} else {
@@ -320,7 +327,7 @@ func (e *env) wantFloat(site, class string, o outcome, want float64, fm failMode
 	}
 	if o.err != nil {
 		e.mix(0xE)
-		if fm == mustSucceed {
+		if fm == mustSucceed && !e.relaxFail {
 			e.violation("C10 fails "+site+" "+class, fmt.Sprintf("%s failed (%s) but the result is defined: %s", expr(), errStr(o.err), fstr(want)),
 				map[string]any{"expr": expr(), "error": errStr(o.err), "want": fstr(want), "variant": e.c.Variant})
 		} else {
@@ -360,7 +367,7 @@ func (e *env) wantBool(site, class string, o outcome, want bool, fm failMode, ex
 	}
 	if o.err != nil {
 		e.mix(0xE)
-		if fm == mustSucceed {
+		if fm == mustSucceed && !e.relaxFail {
 			e.violation("C10 fails "+site+" "+class, fmt.Sprintf("%s failed (%s) but the exact result is %v", expr(), errStr(o.err), want),
 				map[string]any{"expr": expr(), "error": errStr(o.err), "want": want, "variant": e.c.Variant})
 		} else {
@@ -400,7 +407,7 @@ func (e *env) wantStr(site, class string, o outcome, want string, fm failMode, e
 	}
 	if o.err != nil {
 		e.mix(0xE)
-		if fm == mustSucceed {
+		if fm == mustSucceed && !e.relaxFail {
 			e.violation("C10 fails "+site+" "+class, fmt.Sprintf("%s failed (%s) but the exact result is %q", expr(), errStr(o.err), want),
 				map[string]any{"expr": expr(), "error": errStr(o.err), "want": want, "variant": e.c.Variant})
 		} else {
